@@ -312,6 +312,9 @@ def model_apply(st, op):
             edges[(id(u), id(w))] = id(l)
         if d is not None:
             dst[id(path[-1])] = id(d)
+    elif k == "remove_edge":  # a road closed through the networkx graph the network hands out
+        _, u, w = op
+        edges.pop((id(u), id(w)), None)
     else:
         raise ValueError(k)
     return {"nodes": nodes, "edges": edges, "org": org, "dst": dst}
